@@ -56,6 +56,7 @@ type driver struct {
 	pos   int
 	pre   []byte // one-shot prefix of the next ENC's output buffer
 	skip  int    // one-shot number of input bytes read before the next DEC
+	twice bool   // ENCX: answer with the second encoding of the same object
 }
 
 var codecType = reflect.TypeOf((*codec.BinaryCodec)(nil)).Elem()
@@ -480,7 +481,8 @@ func Serve(types map[string]func() any, in io.Reader, outw io.Writer) {
 		current.Store(id)
 		started.Store(time.Now().UnixNano())
 		switch toks[0] {
-		case "ENC":
+		case "ENC", "ENCX":
+			d.twice = toks[0] == "ENCX"
 			d.enc(out, id, toks[2:])
 		case "DEC":
 			d.dec(out, id, toks[2:])
@@ -545,6 +547,13 @@ func (d *driver) enc(out *bufio.Writer, id string, toks []string) {
 	if msg, _ := guarded(func() error { return bc.Encode(&buf) }); msg != "" {
 		fmt.Fprintf(out, "ERR %s error %s\n", id, oneline(msg))
 		return
+	}
+	if d.twice {
+		buf.Reset()
+		if msg, _ := guarded(func() error { return bc.Encode(&buf) }); msg != "" {
+			fmt.Fprintf(out, "ERR %s error second encoding of the same object: %s\n", id, oneline(msg))
+			return
+		}
 	}
 	fmt.Fprintf(out, "ENC %s %s\n", id, hex.EncodeToString(buf.Bytes()))
 }
